@@ -103,6 +103,7 @@ class Scheduler:
         self._abort_evt = _threading.Event()
         self._next_tid = 0
         self._h = 0  # running hash of the trace (replay-divergence detection)
+        self.on_point: Any = None  # optional callable() evaluated at every scheduling point (state invariants)
         self.in_sched = False
 
     # ------------------------------------------------------------------ threads
@@ -241,6 +242,12 @@ class Scheduler:
             self._stop("horizon:points")
         if env.CLOCK.now > self.t_limit:
             self._stop("horizon:time")
+        if self.on_point is not None:
+            self.in_sched = True
+            try:
+                self.on_point()
+            finally:
+                self.in_sched = False
         try:
             nxt = self._pick(me, kind, info)
         except HarnessError as e:
